@@ -1,13 +1,15 @@
 #!/bin/bash
-# runs every seeded change through the quick check of its property; one line per change in build/mutant_sweep.log
+# runs seeded changes through the quick check of their property (all of them, or the names given); one line per change in
+# build/mutant_sweep.log (or $KV_SWEEP_LOG)
 cd /verif
-: > build/mutant_sweep.log
-for d in seeded/C*-m*; do
-  n=$(basename $d)
+LOG=${KV_SWEEP_LOG:-build/mutant_sweep.log}
+: > $LOG
+if [ $# -gt 0 ]; then list="$@"; else list=$(ls -d seeded/C*-m* | xargs -n1 basename); fi
+for n in $list; do
   out=$(tools/mutant.sh $n 2>&1)
   if echo "$out" | grep -q "PATCH-DOES-NOT-APPLY"; then r="does-not-apply";
   elif echo "$out" | grep -q "^VIOLATION"; then r="DETECTED $(echo "$out" | grep -c '^VIOLATION') $(echo "$out" | grep '^VIOLATION' | head -1 | grep -o 'no-failing-input-found')";
   else r="missed"; fi
-  echo "$n $r | $(echo "$out" | grep -E '^C[0-9]+:' | tail -1)" >> build/mutant_sweep.log
+  echo "$n $r | $(echo "$out" | grep -E '^C[0-9]+:' | tail -1)" >> $LOG
 done
-echo SWEEP-DONE >> build/mutant_sweep.log
+echo SWEEP-DONE >> $LOG
